@@ -74,6 +74,7 @@ BadFails(e) == Tag(e.panic = "" /\ e.code # "Success" /\ e.http >= 400, "C16.mal
 Fails(e) == CASE e.ev = "joinsrv" -> JoinFails(e)
               [] e.ev = "homens" -> HomeNSFails(e)
               [] e.ev = "joinbad" -> BadFails(e)
+              [] e.ev = "hang" -> <<e.prop \o ".hang">>    \* a call that never returned (recorded by the watchdog of the harness)
               [] OTHER -> <<"unknown-event">>
 Init == l = 1 /\ nfail = 0
 Next == /\ l <= Len(Tr)
